@@ -62,6 +62,7 @@ class PositionSplitCfg(SplitCfg):
     def requires(self, c, sp, lo, ro, M='JACCARD'):
         r = z3.Int('r!qreq')
         return [('threshold-valid', z3.And(sp.t > 0, sp.t <= 1)), ('set-mode', sp.rs),
+                ('threshold-not-extreme', sp.t >= rv(Fraction(1, 2 ** 400))),       # known finding D8
                 ('token-count-domain', S.toks_bounded()),
                 ('filter-values-present', z3.And(
                     FA([r], z3.Implies(z3.And(r >= 0, r < ln(sp.lt)),
@@ -156,6 +157,7 @@ class PositionTablesCfg(DriverCfg):
         f = c.p('self')
         t = c.f(f, 'threshold')
         return [('object-invariant-threshold-valid', z3.And(t > 0, t <= 1)),
+                ('threshold-not-extreme', t >= rv(Fraction(1, 2 ** 400))),           # known finding D8
                 ('set-mode', c.f(c.field(f, 'tokenizer'), 'return_set'))]
 
 
